@@ -1165,7 +1165,12 @@ class Parser:
             return self._parse_function_expression()
 
         # Regex literal - when we see / in primary expression context, it's a regex
-        if self._check(TokenType.SLASH):
+        if self._check(TokenType.SLASH, TokenType.SLASH_ASSIGN):
+            if self._check(TokenType.SLASH_ASSIGN):
+                # /=/ : the lexer read "/=" as one token, the "=" belongs to
+                # the pattern
+                self.lexer.pos -= 1
+                self.lexer.column -= 1
             regex_token = self.lexer.read_regex_literal()
             self.current = self.lexer.next_token()  # Move past the regex
             pattern, flags = regex_token.value
